@@ -157,6 +157,8 @@ struct Scenario {
     /// signature component: constraint kind and CHECK form, e.g. `pk`, `check-col[a>0]`
     name: String,
     ddl: Vec<String>,
+    /// rows loaded (on both sides, unjudged) before every history
+    setup: Vec<Stmt>,
     defs: Vec<TableDef>,
     decls: Vec<Decl>,
     tables: Vec<&'static str>,
@@ -281,7 +283,7 @@ fn key_scenario(name: &str, ddl: &str, def: TableDef, decls: Vec<Decl>, k1: V, k
     if lite {
         ops.retain(|o| !["updkey11", "updkey22", "updkeyall1", "del2"].contains(&o.name.as_str()));
     }
-    Scenario { name: name.to_string(), ddl: vec![ddl.to_string()], defs: vec![def], decls, tables: vec!["t"], ops, passes, domain_rows: vec![] }
+    Scenario { name: name.to_string(), ddl: vec![ddl.to_string()], setup: vec![], defs: vec![def], decls, tables: vec!["t"], ops, passes, domain_rows: vec![] }
 }
 
 /// one-column CHECK scenario `t(a <ty> <CHECK>)`; `table_level` puts the CHECK after the column list
@@ -306,7 +308,7 @@ fn check_scenario(form: &'static str, ty: Ty, expr: E::Expr, f: CheckFn, values:
     ops.push(op("delall", "del(all)", "delete", del("t", None)));
     ops.extend(txn_ops(false));
     let domain_rows = vec![("t", cross(&[values.clone()]))];
-    Scenario { name, ddl: vec![ddl], defs: vec![def], decls: vec![Decl::Check { table: "t", form, f }], tables: vec!["t"], ops, passes, domain_rows }
+    Scenario { name, ddl: vec![ddl], setup: vec![], defs: vec![def], decls: vec![Decl::Check { table: "t", form, f }], tables: vec!["t"], ops, passes, domain_rows }
 }
 
 fn fk_scenario(name: &str, clause: &str, od: Option<OnDelete>, passes: Vec<Pass>, fk_off: bool) -> Scenario {
@@ -342,6 +344,38 @@ fn fk_scenario(name: &str, clause: &str, od: Option<OnDelete>, passes: Vec<Pass>
     Scenario {
         name: name.to_string(),
         ddl,
+        setup: vec![],
+        defs: vec![p, c],
+        decls: vec![Decl::Key { table: "p", cols: vec![0], pk: true }, Decl::Fk { child: "c", col: 0, parent: "p", pcol: 0 }],
+        tables: vec!["c", "p"],
+        ops,
+        passes,
+        domain_rows: vec![],
+    }
+}
+
+/// Multi-row DELETEs on a parent table that holds three rows (scan order 1, 10, 5 = first, second,
+/// last) while only the first / only a non-first / several of them are referenced.
+fn fk_multi_scenario(name: &str, clause: &str, od: Option<OnDelete>, passes: Vec<Pass>) -> Scenario {
+    let i = V::Int;
+    let p = TableDef::new("p").col(ColumnDef::new("id", Ty::Int).primary_key());
+    let c = TableDef::new("c").col(ColumnDef::new("pid", Ty::Int).references("p", "id", od.unwrap_or(OnDelete::Restrict))).col(ColumnDef::new("x", Ty::Int));
+    let id = || E::col("id");
+    let ops = vec![
+        op("insc1", "ins-child(first)", "insert", ins("c", vec![i(1), i(0)])),
+        op("insc10", "ins-child(second)", "insert", ins("c", vec![i(10), i(0)])),
+        op("insc5", "ins-child(last)", "insert", ins("c", vec![i(5), i(0)])),
+        op("delcall", "del-child(all)", "delete", del("c", None)),
+        op("delpall", "del-parent(all)", "delete-multi", del("p", None)),
+        op("delprange", "del-parent(range-all)", "delete-multi", del("p", Some(E::ge(id(), E::int(1))))),
+        op("delpge5", "del-parent(second+last)", "delete-multi", del("p", Some(E::ge(id(), E::int(5))))),
+        op("delple5", "del-parent(first+last)", "delete-multi", del("p", Some(E::le(id(), E::int(5))))),
+        op("delp10", "del-parent(second)", "delete", del("p", col_eq("id", i(10)))),
+    ];
+    Scenario {
+        name: name.to_string(),
+        ddl: vec!["CREATE TABLE p (id INT PRIMARY KEY)".to_string(), format!("CREATE TABLE c (pid INT REFERENCES p(id){clause}, x INT)")],
+        setup: vec![ins("p", vec![i(1)]), ins("p", vec![i(10)]), ins("p", vec![i(5)])],
         defs: vec![p, c],
         decls: vec![Decl::Key { table: "p", cols: vec![0], pk: true }, Decl::Fk { child: "c", col: 0, parent: "p", pcol: 0 }],
         tables: vec!["c", "p"],
@@ -428,6 +462,7 @@ fn scenarios(plant_opt: Option<&str>) -> Vec<Scenario> {
         v.push(Scenario {
             name: "unique-composite".into(),
             ddl: vec!["CREATE TABLE t (u INT, v INT, a INT, UNIQUE (u, v))".into()],
+            setup: vec![],
             defs: vec![TableDef::new("t").col(ColumnDef::new("u", Ty::Int)).col(ColumnDef::new("v", Ty::Int)).col(ColumnDef::new("a", Ty::Int)).unique(&["u", "v"])],
             decls: vec![Decl::Key { table: "t", cols: vec![0, 1], pk: false }],
             tables: vec!["t"],
@@ -460,6 +495,7 @@ fn scenarios(plant_opt: Option<&str>) -> Vec<Scenario> {
         v.push(Scenario {
             name: name.into(),
             ddl: vec![ddl.into()],
+            setup: vec![],
             defs: vec![TableDef::new("t").col(ColumnDef::new("id", Ty::Int).primary_key()).col(a)],
             decls: vec![Decl::Key { table: "t", cols: vec![0], pk: true }, Decl::NotNull { table: "t", col: 1 }],
             tables: vec!["t"],
@@ -530,6 +566,7 @@ fn scenarios(plant_opt: Option<&str>) -> Vec<Scenario> {
         v.push(Scenario {
             name: name.into(),
             ddl: vec![ddl.into()],
+            setup: vec![],
             defs: vec![def],
             decls: vec![Decl::Check { table: "t", form: "a > b", f }],
             tables: vec!["t"],
@@ -543,6 +580,9 @@ fn scenarios(plant_opt: Option<&str>) -> Vec<Scenario> {
     v.push(fk_scenario("fk-restrict", " ON DELETE RESTRICT", Some(OnDelete::Restrict), { let mut p = deep_passes(3, 4, &["insc2", "updcx1", "truncp"]); p.push(core_pass(&["insp1", "insc1", "delc1", "delp1", "begin", "rollback"], 4, 6)); p }, fk_off));
     v.push(fk_scenario("fk-cascade", " ON DELETE CASCADE", Some(OnDelete::Cascade), { let mut p = deep_passes(3, 4, &["insc2", "updcx1", "truncp"]); p.push(core_pass(&["insp1", "insc1", "delc1", "delp1", "begin", "rollback"], 4, 6)); p }, fk_off));
     v.push(fk_scenario("fk-noaction", "", None, std_passes(3, 4), fk_off));
+    v.push(fk_multi_scenario("fk-multi-restrict", " ON DELETE RESTRICT", Some(OnDelete::Restrict), std_passes(3, 4)));
+    v.push(fk_multi_scenario("fk-multi-noaction", "", None, std_passes(3, 4)));
+    v.push(fk_multi_scenario("fk-multi-cascade", " ON DELETE CASCADE", Some(OnDelete::Cascade), std_passes(3, 4)));
     v.push(fk_scenario("fk-table-level", " ON DELETE RESTRICT", Some(OnDelete::Restrict), std_passes(2, 3), fk_off));
     v
 }
@@ -660,6 +700,13 @@ impl<'a> Runner<'a> {
             let r = t.exec(d);
             if !r.ok() {
                 vcore::machinery(&format!("C09: schema statement refused: {d}: {}", r.show()));
+            }
+        }
+        for st in &sc.setup {
+            st.apply(&mut model).unwrap_or_else(|e| vcore::machinery(&format!("C09: model rejects setup statement {} of {}: {e:?}", st.to_sql(), sc.name)));
+            let r = t.exec(&st.to_sql());
+            if !r.ok() {
+                vcore::machinery(&format!("C09: setup statement refused: {}: {}", st.to_sql(), r.show()));
             }
         }
         for (k, &oi) in hist.iter().enumerate() {
@@ -902,7 +949,7 @@ impl<'a, 'b> Walker<'a, 'b> {
         self.rep.count(&format!("verdict.{}", verdict.name()), 1);
         let names = |h: &[usize]| h.iter().map(|&i| sc.ops[i].name.clone()).collect::<Vec<_>>();
         let sql = |h: &[usize]| h.iter().map(|&i| sc.ops[i].sql.clone()).collect::<Vec<_>>();
-        self.rep.violation("C09", verdict.name(), &sig, || json!({"scenario": sc.name, "ops": names(&min), "ddl": sc.ddl, "sql": sql(&min), "found_in": names(hist)}), &exp, &obs);
+        self.rep.violation("C09", verdict.name(), &sig, || json!({"scenario": sc.name, "ops": names(&min), "ddl": sc.ddl, "setup": sc.setup.iter().map(|x| x.to_sql()).collect::<Vec<_>>(), "sql": sql(&min), "found_in": names(hist)}), &exp, &obs);
     }
 
     fn dfs(&mut self, si: usize, sc: &Scenario, allowed: &[usize], prefix: &mut Vec<usize>, in_txn: bool, maxd: usize, owned: bool) {
@@ -1006,7 +1053,7 @@ impl Check for C09 {
         let mut s = Spec::new(
             "C09",
             "model_checking",
-            "per schema (PRIMARY KEY int/text; UNIQUE int/text/composite with NULLs; NOT NULL with and without DEFAULT; column- and table-level CHECK in 17 forms over INT/REAL/TEXT; FOREIGN KEY with RESTRICT, CASCADE and no action) every history of single-row INSERT, UPDATE of key and non-key columns, DELETE (one key / all), TRUNCATE of the parent, BEGIN/ROLLBACK/COMMIT over 2 key values + NULL (CHECK: values NULL,-1,0,1,10 / 'x','y' / -1.0,0.0,1.5,10.0) up to depth 3 (quick) / 4-5 (thorough) is executed on a fresh real Database in lock-step with the relational model; a case is one history (no merging: hidden index/tombstone state), non-trivial when its last step is a write; Ok/Err of every write is compared with the model's verdict on the resulting state and the stored tables are re-checked against every declaration by an independent evaluator; a history is cut at its first divergence (all histories that do not run through a divergence are still explored to full depth)",
+            "per schema (PRIMARY KEY int/text; UNIQUE int/text/composite with NULLs; NOT NULL with and without DEFAULT; column- and table-level CHECK in 17 forms over INT/REAL/TEXT; FOREIGN KEY with RESTRICT, CASCADE and no action) every history of single-row INSERT, UPDATE of key and non-key columns, DELETE (one key / all; multi-row DELETEs of 2-3 preloaded parents of which the first / a non-first / several are referenced), TRUNCATE of the parent, BEGIN/ROLLBACK/COMMIT over 2 key values + NULL (CHECK: values NULL,-1,0,1,10 / 'x','y' / -1.0,0.0,1.5,10.0) up to depth 3 (quick) / 4-5 (thorough) is executed on a fresh real Database in lock-step with the relational model; a case is one history (no merging: hidden index/tombstone state), non-trivial when its last step is a write; Ok/Err of every write is compared with the model's verdict on the resulting state and the stored tables are re-checked against every declaration by an independent evaluator; a history is cut at its first divergence (all histories that do not run through a divergence are still explored to full depth)",
         );
         s.assumptions = &[
             "SQL-standard end-of-statement constraint semantics as implemented by refmodel::sql::rel (cross-checked against SQLite); no ON UPDATE actions; a FOREIGN KEY without ON DELETE refuses the delete of a referenced parent",
@@ -1023,7 +1070,7 @@ impl Check for C09 {
         self_test(&scs);
         let only = ctx.opt("scenario").map(|s| s.to_string());
         let mut w = Walker { run: Runner { ctx, executed: 0 }, rep: &mut *rep, split_depth: ctx.tier.pick(1, 2), shallow_seq: 0, unit_seq: 0, memo: BTreeMap::new(), stop: false };
-        for name in ["op.insert", "op.update-key", "op.update-nonkey", "op.delete", "op.truncate", "op.begin", "op.rollback", "op.commit", "err.pk", "err.unique", "err.notnull", "err.check", "err.fk", "agree.accept", "agree.reject"] {
+        for name in ["op.insert", "op.update-key", "op.update-nonkey", "op.delete", "op.delete-multi", "op.truncate", "op.begin", "op.rollback", "op.commit", "err.pk", "err.unique", "err.notnull", "err.check", "err.fk", "agree.accept", "agree.reject"] {
             w.rep.expect_nonzero(name);
         }
         let mut bounds = serde_json::Map::new();
